@@ -56,6 +56,14 @@ pub enum Rep {
     N { dd: usize },
     C { dd: usize, bc: bool },
     D { sk: Sk, bc: bool },
+    /// contiguous NFA / DFA built by their OWN builders from the patterns
+    /// (every option forwarded through that builder), not from a prebuilt
+    /// noncontiguous NFA
+    CB { dd: usize, bc: bool },
+    DB { sk: Sk, bc: bool },
+    /// the plain constructors `X::new(patterns)`: 0 AhoCorasick, 1 nNFA,
+    /// 2 cNFA, 3 DFA (all defaults: standard semantics, no folding)
+    New { which: u8 },
 }
 
 #[derive(Clone, Copy, Debug, PartialEq, Eq, Hash, PartialOrd, Ord)]
@@ -79,6 +87,16 @@ impl Cfg {
             Rep::N { dd } => format!("nnfa:dd={}:pre={}", dd, p),
             Rep::C { dd, bc } => format!("cnfa:dd={}:bc={}:pre={}", dd, bc as u8, p),
             Rep::D { sk, bc } => format!("dfa:sk={}:bc={}:pre={}", sk.ch(), bc as u8, p),
+            Rep::CB { dd, bc } => format!("cnfab:dd={}:bc={}:pre={}", dd, bc as u8, p),
+            Rep::DB { sk, bc } => format!("dfab:sk={}:bc={}:pre={}", sk.ch(), bc as u8, p),
+            Rep::New { which } => format!("new:which={}:pre={}", ["top", "nnfa", "cnfa", "dfa"][which as usize], p),
+        }
+    }
+    /// Plain constructors exist only for the default configuration.
+    pub fn applicable(&self, kind: Kind, ci: bool) -> bool {
+        match self.rep {
+            Rep::New { .. } => kind == Kind::Std && !ci && self.pre,
+            _ => true,
         }
     }
     pub fn parse(s: &str) -> Option<Cfg> {
@@ -106,6 +124,16 @@ impl Cfg {
             "nnfa" => Rep::N { dd: g("dd").parse().ok()? },
             "cnfa" => Rep::C { dd: g("dd").parse().ok()?, bc: g("bc") == "1" },
             "dfa" => Rep::D { sk: Sk::from_ch(&g("sk")), bc: g("bc") == "1" },
+            "cnfab" => Rep::CB { dd: g("dd").parse().ok()?, bc: g("bc") == "1" },
+            "dfab" => Rep::DB { sk: Sk::from_ch(&g("sk")), bc: g("bc") == "1" },
+            "new" => Rep::New {
+                which: match g("which").as_str() {
+                    "nnfa" => 1,
+                    "cnfa" => 2,
+                    "dfa" => 3,
+                    _ => 0,
+                },
+            },
             _ => return None,
         };
         Some(Cfg { rep, pre })
@@ -115,15 +143,18 @@ impl Cfg {
         match self.rep {
             Rep::Top { sk, .. } => sk.supports(anchored),
             Rep::D { sk, .. } => sk.supports(anchored),
+            Rep::DB { sk, .. } => sk.supports(anchored),
+            // default start kind of AhoCorasick::new and DFA::new: unanchored
+            Rep::New { which: 0 } | Rep::New { which: 3 } => !anchored,
             _ => true,
         }
     }
     pub fn is_low(&self) -> bool {
-        !matches!(self.rep, Rep::Top { .. })
+        !matches!(self.rep, Rep::Top { .. } | Rep::New { which: 0 })
     }
 }
 
-/// The 15 low-level representations of DESIGN.md section 2.3.
+/// The low-level representations of DESIGN.md section 2.3.
 pub fn low_reps() -> Vec<Rep> {
     let mut v = vec![];
     for dd in [0usize, 1, 3] {
@@ -138,6 +169,11 @@ pub fn low_reps() -> Vec<Rep> {
         for bc in [true, false] {
             v.push(Rep::D { sk, bc });
         }
+    }
+    v.push(Rep::CB { dd: 1, bc: true });
+    v.push(Rep::DB { sk: Sk::B, bc: true });
+    for which in 1..4u8 {
+        v.push(Rep::New { which });
     }
     v
 }
@@ -155,6 +191,7 @@ pub fn top_reps() -> Vec<Rep> {
     v.push(Rep::Top { kind: 3, sk: Sk::U, dd: None, bc: false });
     v.push(Rep::Top { kind: 2, sk: Sk::B, dd: Some(0), bc: false });
     v.push(Rep::Top { kind: 1, sk: Sk::B, dd: Some(0), bc: true });
+    v.push(Rep::New { which: 0 });
     v
 }
 
@@ -226,6 +263,37 @@ fn build_inner(pats: &[Vec<u8>], kind: Kind, ci: bool, cfg: Cfg) -> Result<Searc
                     .build_from_noncontiguous(&n)
                     .map_err(e)?,
             ))
+        }
+        Rep::CB { dd, bc } => Ok(Searcher::C(
+            nfa::contiguous::Builder::new()
+                .match_kind(kind.ac())
+                .ascii_case_insensitive(ci)
+                .prefilter(cfg.pre)
+                .dense_depth(dd)
+                .byte_classes(bc)
+                .build(pats)
+                .map_err(e)?,
+        )),
+        Rep::DB { sk, bc } => Ok(Searcher::D(
+            dfa::Builder::new()
+                .match_kind(kind.ac())
+                .ascii_case_insensitive(ci)
+                .prefilter(cfg.pre)
+                .start_kind(sk.ac())
+                .byte_classes(bc)
+                .build(pats)
+                .map_err(e)?,
+        )),
+        Rep::New { which } => {
+            if !cfg.applicable(kind, ci) {
+                return Err("plain constructors exist only for the default configuration".into());
+            }
+            Ok(match which {
+                1 => Searcher::N(nfa::noncontiguous::NFA::new(pats).map_err(e)?),
+                2 => Searcher::C(nfa::contiguous::NFA::new(pats).map_err(e)?),
+                3 => Searcher::D(dfa::DFA::new(pats).map_err(e)?),
+                _ => Searcher::Top(AhoCorasick::new(pats).map_err(e)?),
+            })
         }
     }
 }
